@@ -16,7 +16,11 @@
 from warnings import warn
 import unified_planning as up
 from unified_planning.model.expression import ConstantExpression
-from unified_planning.exceptions import UPProblemDefinitionError, UPValueError
+from unified_planning.exceptions import (
+    UPProblemDefinitionError,
+    UPTypeError,
+    UPValueError,
+)
 from typing import Optional, List, Dict, Union, Iterable, Set
 
 
@@ -45,8 +49,7 @@ class FluentsSetMixin:
         ] = {}
         self._initial_defaults: Dict["up.model.types.Type", "up.model.fnode.FNode"] = {}
         for k, v in initial_defaults.items():
-            (v_exp,) = self.environment.expression_manager.auto_promote(v)
-            self._initial_defaults[k] = v_exp
+            self._initial_defaults[k] = self._check_default_value(k, v)
         # The field initial default optionally associates a type to a default value. When a new fluent is
         # created with no explicit default, it will be associated with the initial-default of his type, if any.
 
@@ -54,6 +57,20 @@ class FluentsSetMixin:
     def environment(self) -> "up.environment.Environment":
         """Returns the `problem` `Environment`."""
         return self._env
+
+    def _check_default_value(
+        self, tp: "up.model.types.Type", value: "ConstantExpression"
+    ) -> "up.model.fnode.FNode":
+        """Returns the given default value as an expression, after checking that it
+        is a constant that can be assigned to something of the given type."""
+        (v_exp,) = self._env.expression_manager.auto_promote(value)
+        if not v_exp.is_constant():
+            raise UPTypeError(f"The default initial value {v_exp} is not a constant.")
+        if not tp.is_compatible(v_exp.type):
+            raise UPTypeError(
+                f"The default initial value {v_exp} is not compatible with the type {tp}."
+            )
+        return v_exp
 
     @property
     def fluents(self) -> List["up.model.fluent.Fluent"]:
@@ -136,6 +153,9 @@ class FluentsSetMixin:
             fluent = up.model.fluent.Fluent(
                 fluent_or_name, typename, None, environment=self.environment, **kwargs
             )
+        v_exp = None  # checked before the problem is modified
+        if default_initial_value is not None:
+            v_exp = self._check_default_value(fluent.type, default_initial_value)
         if self._has_name_method(fluent.name):
             msg = f"Name {fluent.name} already defined! Different elements of a problem can have the same name if the environment flag error_used_name is disabled."
             if self._env.error_used_name or any(
@@ -145,10 +165,7 @@ class FluentsSetMixin:
             else:
                 warn(msg)
         self._fluents.append(fluent)
-        if not default_initial_value is None:
-            (v_exp,) = self.environment.expression_manager.auto_promote(
-                default_initial_value
-            )
+        if v_exp is not None:
             self._fluents_defaults[fluent] = v_exp
         elif fluent.type in self._initial_defaults:
             self._fluents_defaults[fluent] = self._initial_defaults[fluent.type]
